@@ -118,7 +118,7 @@ class heatNd_unforced(GenericNDimFinDiff):
         elif ndim == 3:
             rho = (
                 (2.0 - 2.0 * np.cos(np.pi * freq[0] * dx)) / dx**2
-                + (2.0 - 2.0 * np.cos(np.pi * freq[1] * dx))
+                + (2.0 - 2.0 * np.cos(np.pi * freq[1] * dx)) / dx**2
                 + (2.0 - 2.0 * np.cos(np.pi * freq[2] * dx)) / dx**2
             )
             x, y, z = self.grids
